@@ -90,7 +90,7 @@ theorem tlsSecretsResolverBody_pinned : Generated.PanicSites.tlsSecretsResolverB
 theorem processBackendTLSPoliciesBody_pinned : Generated.PanicSites.processBackendTLSPoliciesBody =
   ["if len(backendTLSPolicies) == 0 || gateway == nil { return nil }",
    "processedBackendTLSPolicies := make(map[types.NamespacedName]*BackendTLSPolicy, len(backendTLSPolicies))",
-   "for nsname, backendTLSPolicy := range backendTLSPolicies { var caCertRef types.NamespacedName valid, ignored, conds := validateBackendTLSPolicy(backendTLSPolicy, configMapResolver, ctlrName) if valid && !ignored && backendTLSPolicy.Spec.Validation.CACertificateRefs != nil { caCertRef = types.NamespacedName{ Namespace: backendTLSPolicy.Namespace, Name: string(backendTLSPolicy.Spec.Validation.CACertificateRefs[0].Name), } } processedBackendTLSPolicies[nsname] = &BackendTLSPolicy{ Source: backendTLSPolicy, Valid: valid, Conditions: conds, Gateway: types.NamespacedName{ Namespace: gateway.Source.Namespace, Name: gateway.Source.Name, }, CaCertRef: caCertRef, Ignored: ignored, } }",
+   "for nsname, backendTLSPolicy := range backendTLSPolicies { var caCertRef types.NamespacedName valid, ignored, conds := validateBackendTLSPolicy(backendTLSPolicy, configMapResolver, ctlrName) if valid && !ignored && len(backendTLSPolicy.Spec.Validation.CACertificateRefs) > 0 { caCertRef = types.NamespacedName{ Namespace: backendTLSPolicy.Namespace, Name: string(backendTLSPolicy.Spec.Validation.CACertificateRefs[0].Name), } } processedBackendTLSPolicies[nsname] = &BackendTLSPolicy{ Source: backendTLSPolicy, Valid: valid, Conditions: conds, Gateway: types.NamespacedName{ Namespace: gateway.Source.Namespace, Name: gateway.Source.Name, }, CaCertRef: caCertRef, Ignored: ignored, } }",
    "return processedBackendTLSPolicies"] := rfl
 
 theorem validateFilterHeaderModifierBody_pinned : Generated.PanicSites.validateFilterHeaderModifierBody =
